@@ -22,6 +22,8 @@ namespace OpenMEEG {
         const unsigned n = pts.nlin();
         ProgressBar pb(geom.meshes().size()*n);
         for (const auto& mesh : geom.meshes()) {
+            if (mesh.isolated()) // No conductivity jump and no unknowns on its vertices.
+                continue;
             const double coeff = MagFactor*geom.conductivity_jump(mesh);
             for (unsigned i=0,index=0; i<n; ++i,index+=3,++pb) {
                 const Vect3 p(pts(i,0),pts(i,1),pts(i,2));
